@@ -840,3 +840,174 @@ Proof.
       - apply INU. right. apply in_or_app; auto. }
     { generalize (E5 l). rewrite !CHb. intro Q. apply Q; lia. }
 Qed.
+
+(* ---------- helpers for put ---------- *)
+Lemma own_incl : forall s U V, Own s U -> (forall x, In x V -> In x U) -> Own s V.
+Proof. intros s U V [A B] H. constructor; intros; eauto. Qed.
+
+Lemma ss_insert : forall {A} (R : A -> A -> Prop) lo hi x, StronglySorted R (lo ++ hi) ->
+  (forall a, In a lo -> R a x) -> (forall b, In b hi -> R x b) -> StronglySorted R (lo ++ x :: hi).
+Proof.
+  induction lo; simpl; intros.
+  - constructor; auto. apply Forall_forall. auto.
+  - inversion H; subst. constructor.
+    + apply IHlo; auto.
+    + apply Forall_forall. intros y Hy. apply in_app_or in Hy. destruct Hy as [Hy|[Hy|Hy]].
+      * eapply Forall_forall in H5; eauto. apply in_or_app; auto.
+      * subst. auto.
+      * eapply Forall_forall in H5; eauto. apply in_or_app; auto.
+Qed.
+
+Lemma uv_get_app_hdr_in : forall n a u l h, a <= l -> l < a + n ->
+  uv_get (map (fun l0 => (l0, h)) (seq a n) ++ u) l = Some h.
+Proof.
+  induction n; intros; simpl. lia. rewrite uv_get_cons. destruct (Nat.eqb a l) eqn:E; auto.
+  apply Nat.eqb_neq in E. apply IHn; lia.
+Qed.
+Lemma uv_get_app_hdr_out : forall n a u l h, (l < a \/ a + n <= l) ->
+  uv_get (map (fun l0 => (l0, h)) (seq a n) ++ u) l = uv_get u l.
+Proof.
+  induction n; intros; simpl; auto. rewrite uv_get_cons. replace (Nat.eqb a l) with false by (symmetry; apply Nat.eqb_neq; lia).
+  apply IHn. lia.
+Qed.
+
+Lemma new_level_le : forall o, new_level o <= LEVEL_MAX.
+Proof. intros. unfold new_level. apply Nat.le_min_r. Qed.
+
+(* two states with the same heaps read the same *)
+Lemma same_heaps_fwd : forall s s1 x l, k_nodes s1 = k_nodes s -> k_arrs s1 = k_arrs s -> fwd s1 x l = fwd s x l.
+Proof. intros. unfold fwd, dnode, darr. rewrite H, H0. reflexivity. Qed.
+Lemma same_nodes_dnode : forall s s1 x, k_nodes s1 = k_nodes s -> dnode s1 x = dnode s x.
+Proof. intros. unfold dnode. rewrite H. reflexivity. Qed.
+
+(* the tail of skiplist_put once the position is known *)
+Lemma put_new_tail : forall s C0 s1 u1 k x nl lo hi,
+  SGood s C0 -> C0 = lo ++ hi ->
+  (forall y, In y lo -> key_ltb (nkey s y) k = true) -> (forall y, In y hi -> key_ltb k (nkey s y) = true) ->
+  nl <= LEVEL_MAX ->
+  k_nodes s1 = k_nodes s -> k_arrs s1 = k_arrs s -> k_length s1 = k_length s -> k_iters s1 = k_iters s ->
+  k_used s1 = k_used s -> k_alive s1 = k_alive s -> k_level s1 = Z.max (k_level s) (Z.of_nat nl) ->
+  (forall l, l <= nl -> uv_get u1 l = Some (last (chain s lo l) HEADER)) ->
+  let new := length (k_nodes s) in
+  exists s' ns,
+    (let '(s2, id) := node_new s1 (Z.of_nat nl) (Some k) x in
+     do n <- dnode s2 id; do ns <- k_notify s2 n EV_INSERTED k 0%N x;
+     do s3 <- link_levels s2 u1 id (seq 0 (S nl)); Ok (set_length s3 (wrap64 (k_length s3 + 1)), ns)) = Ok (s', ns) /\
+    SGood s' (lo ++ new :: hi) /\
+    ns = notify_global (hsubs s) EV_INSERTED k 0%N x /\
+    (forall y, In y C0 -> sent s' y = sent s y) /\
+    sent s' new = {| re_id := new - 1; re_key := k; re_val := x; re_removed := false; re_subs := [] |} /\
+    length (k_nodes s') = S new /\ hsubs s' = hsubs s /\ k_used s' = k_used s.
+Proof.
+  intros s C0 s1 u1 k x nl lo hi G E LO HI Hnl N1 A1 LEN1 IT1 US1 AL1 LV1 UV new.
+  destruct (node_new s1 (Z.of_nat nl) (Some k) x) as [s2 id] eqn:NN.
+  destruct (node_new_spec _ _ _ _ _ _ NN) as [ID [N2 [A2 [LEN2 [LV2 [IT2 [US2 AL2]]]]]]].
+  rewrite N1 in ID, N2. rewrite A1 in N2, A2. fold new in ID. subst id.
+  set (nn := {| sn_key := Some k; sn_val := x; sn_level := Z.of_nat nl; sn_ref := 1; sn_subs := []; sn_fwd := length (k_arrs s) |}) in *.
+  assert (DN : dnode s2 new = Ok nn) by (apply (dnode_app_new s s2 nn N2)).
+  assert (OLDN : forall y, y < new -> dnode s2 y = dnode s y) by (intros; eapply dnode_app_old; eauto).
+  destruct (sg_hdr _ _ G) as [h [H1 [H2 H3]]].
+  assert (HLT : HEADER < new) by (eapply dnode_lt; eauto).
+  assert (CLT : forall y, In y C0 -> y < new). { intros y Hy. destruct (sg_node _ _ G y Hy) as [m [ky [M1 _]]]. eapply dnode_lt; eauto. }
+  destruct (sg_own _ _ G) as [OA OI].
+  assert (ARR : forall y m, In y (HEADER :: C0) -> dnode s y = Ok m -> sn_fwd m < length (k_arrs s)).
+  { intros y m Hy M. destruct (OA y m Hy M) as [a [Q _]]. eapply darr_lt; eauto. }
+  assert (OLDF : forall y l, (y = HEADER \/ In y C0) -> fwd s2 y l = fwd s y l).
+  { intros y l Hy. assert (exists m, dnode s y = Ok m). { destruct Hy. subst; eauto. destruct (sg_node _ _ G y H) as [m [ky [M1 _]]]; eauto. }
+    destruct H as [m M]. eapply fwd_app_old; eauto. apply (ARR y m); auto. destruct Hy; [left|right]; auto. }
+  assert (NEWF : forall l, l <= LEVEL_MAX -> fwd s2 new l = Ok None).
+  { intros. unfold fwd. rewrite DN. cbn [bind]. change (sn_fwd nn) with (length (k_arrs s)). rewrite (darr_app_new s s2 _ A2). cbn [bind].
+    rewrite nth_error_repeat by (unfold LEVEL_MAX in *; lia). reflexivity. }
+  rewrite DN. cbn [bind]. unfold k_notify. rewrite (OLDN HEADER HLT), H1. cbn [bind]. simpl sn_subs. cbn [notify_node flat_map app].
+  (* universe *)
+  set (U := new :: HEADER :: C0).
+  assert (OWN2 : Own s2 U).
+  { constructor.
+    - intros y m Hy M. destruct Hy as [Hy|Hy].
+      + subst y. rewrite DN in M. inversion M; subst m. simpl. rewrite (darr_app_new s s2 _ A2). eexists. split; [reflexivity|]. apply repeat_length.
+      + assert (y < new) by (destruct Hy; [subst; auto | apply CLT; auto]). rewrite OLDN in M by auto.
+        destruct (OA y m Hy M) as [a [Q1 Q2]]. exists a. split; auto. rewrite (darr_app_old s s2 _ _ A2); auto. eapply darr_lt; eauto.
+    - intros y z m1 m2 Hy Hz M1 M2 Q. destruct Hy as [Hy|Hy], Hz as [Hz|Hz]; try congruence.
+      + subst y. rewrite DN in M1. inversion M1; subst m1. simpl in Q.
+        assert (z < new) by (destruct Hz; [subst; auto | apply CLT; auto]). rewrite OLDN in M2 by auto.
+        assert (sn_fwd m2 < length (k_arrs s)) by (apply (ARR z m2 Hz M2)). lia.
+      + subst z. rewrite DN in M2. inversion M2; subst m2. simpl in Q.
+        assert (y < new) by (destruct Hy; [subst; auto | apply CLT; auto]). rewrite OLDN in M1 by auto.
+        assert (sn_fwd m1 < length (k_arrs s)) by (apply (ARR y m1 Hy M1)). lia.
+      + assert (y < new) by (destruct Hy; [subst; auto | apply CLT; auto]).
+        assert (z < new) by (destruct Hz; [subst; auto | apply CLT; auto]). rewrite OLDN in M1, M2 by auto. eapply OI; eauto. }
+  assert (SU2 : sub_universe U s2).
+  { intros y [Hy|[Hy|Hy]]. subst; eauto. subst. rewrite OLDN by auto. eauto.
+    rewrite OLDN by (apply CLT; auto). destruct (sg_node _ _ G y Hy) as [m [ky [M1 _]]]; eauto. }
+  assert (CH2 : forall X l, (forall y, In y X -> In y C0) -> chain s2 X l = chain s X l).
+  { intros. unfold chain. apply filter_ext_in'. intros y Hy. unfold at_level, nlvl. rewrite OLDN by (apply CLT; auto). auto. }
+  assert (LOC : forall y, In y lo -> In y C0) by (intros; rewrite E; apply in_or_app; auto).
+  assert (HIC : forall y, In y hi -> In y C0) by (intros; rewrite E; apply in_or_app; auto).
+  assert (NDC : NoDup C0) by (eapply sgood_nodup; eauto).
+  assert (HNC : ~ In HEADER C0). { intro Q. destruct (sg_node _ _ G HEADER Q) as [_ [_ [_ [_ [_ [_ Q2]]]]]]. congruence. }
+  destruct (link_ok (S nl) 0 s2 u1 U new lo hi) as [s3 [K1 [K2 [K3 [K4 K5]]]]]; auto.
+  { unfold LEVEL_MAX in *. lia. }
+  { left; auto. }
+  { right; left; auto. }
+  { intros y Hy. right. right. rewrite E. auto. }
+  { constructor. intros [Q|Q]. unfold new, HEADER in *. lia. rewrite <- E in Q. apply CLT in Q. unfold new in Q. lia.
+    constructor. rewrite <- E. auto. rewrite <- E. auto. }
+  { intros l _ Hl. rewrite !CH2 by auto. generalize (sg_linked _ _ G l Hl). rewrite E, chain_app. intro Q.
+    apply (linked_ext s). 2: exact Q. intros y Hy. apply OLDF. destruct Hy as [Hy|Hy]; auto. right. rewrite E.
+    apply in_app_or in Hy. apply in_or_app. destruct Hy as [Hy|Hy]; [left|right]; unfold chain in Hy; apply filter_In in Hy; apply Hy. }
+  { intros l _ Hl. rewrite CH2 by auto. apply UV. lia. }
+  rewrite K1. cbn [bind]. destruct K2 as [KN [KL [KV [KI [KU KA]]]]].
+  eexists _, _. split; [reflexivity|]. 
+  assert (OLD3 : forall y, y < new -> dnode (set_length s3 (wrap64 (k_length s3 + 1))) y = dnode s y).
+  { intros. unfold dnode. simpl. rewrite KN. apply OLDN; auto. }
+  assert (NEW3 : dnode (set_length s3 (wrap64 (k_length s3 + 1))) new = Ok nn) by (unfold dnode; simpl; rewrite KN; exact DN).
+  set (s' := set_length s3 (wrap64 (k_length s3 + 1))) in *.
+  assert (FW3 : forall y l, fwd s' y l = fwd s3 y l) by reflexivity.
+  assert (KEYO : forall y, y < new -> nkey s' y = nkey s y) by (intros; unfold nkey; rewrite OLD3; auto).
+  assert (KEYN : nkey s' new = k) by (unfold nkey; rewrite NEW3; reflexivity).
+  assert (LVO : forall y, y < new -> nlvl s' y = nlvl s y) by (intros; unfold nlvl; rewrite OLD3; auto).
+  assert (LVN : nlvl s' new = nl) by (unfold nlvl; rewrite NEW3; simpl; apply Nat2Z.id).
+  assert (CH3 : forall X l, (forall y, In y X -> In y C0) -> chain s' X l = chain s X l).
+  { intros. unfold chain. apply filter_ext_in'. intros y Hy. unfold at_level. rewrite LVO by (apply CLT; auto). auto. }
+  assert (CHN : forall l, chain s' (lo ++ new :: hi) l = chain s lo l ++ (if Nat.leb l nl then [new] else []) ++ chain s hi l).
+  { intros. rewrite chain_app. rewrite CH3 by auto. f_equal. unfold chain at 1. cbn [filter]. unfold at_level at 1. rewrite LVN.
+    fold (chain s' hi l). rewrite CH3 by auto. destruct (Nat.leb l nl); reflexivity. }
+  assert (LVMAX : k_level s' = Z.max (k_level s) (Z.of_nat nl)). { unfold s'. simpl. rewrite KV, LV2. exact LV1. }
+  split.
+  { constructor.
+    - exists h. rewrite OLD3 by auto. auto.
+    - intros y Hy. apply in_app_or in Hy. destruct Hy as [Hy|[Hy|Hy]].
+      + destruct (sg_node _ _ G y (LOC y Hy)) as [m [ky [M1 [M2 [M3 [M4 M5]]]]]]. exists m, ky. rewrite OLD3 by (apply CLT; auto). rewrite LVMAX. repeat split; auto; lia.
+      + subst y. exists nn, k. rewrite NEW3, LVMAX. simpl. repeat split; auto; try lia; unfold new, HEADER in *; lia.
+      + destruct (sg_node _ _ G y (HIC y Hy)) as [m [ky [M1 [M2 [M3 [M4 M5]]]]]]. exists m, ky. rewrite OLD3 by (apply CLT; auto). rewrite LVMAX. repeat split; auto; lia.
+    - apply (own_incl s' U).
+      + destruct K3 as [KA1 KA2]. constructor.
+        * intros y m Hy M. apply (KA1 y m Hy). exact M.
+        * intros y z m1 m2 Hy Hz M1 M2. apply (KA2 y z m1 m2 Hy Hz M1 M2).
+      + intros y [Hy|Hy]. subst. right; left; auto. apply in_app_or in Hy. destruct Hy as [Hy|[Hy|Hy]].
+        right; right; auto. subst; left; auto. right; right; auto.
+    - apply ss_insert.
+      + eapply ss_ext. 2:{ rewrite <- E. apply (sg_sorted _ _ G). } intros a b Ha Hb. unfold klt. rewrite <- E in Ha, Hb.
+        rewrite !KEYO by (apply CLT; auto). auto.
+      + intros a Ha. unfold klt. rewrite KEYN, KEYO by (apply CLT; auto). auto.
+      + intros b Hb. unfold klt. rewrite KEYN, KEYO by (apply CLT; auto). auto.
+    - intros l Hl. rewrite CHN. destruct (Nat.leb l nl) eqn:LE.
+      + apply Nat.leb_le in LE. generalize (K5 l (Nat.le_0_l l)). rewrite !CH2 by auto. intro Q. cbn [app]. apply (linked_ext s3); [intros; apply FW3|]. apply Q. lia.
+      + apply Nat.leb_gt in LE. cbn [app]. generalize (sg_linked _ _ G l Hl). rewrite E, chain_app. intro Q.
+        apply (linked_ext s). 2: exact Q. intros y Hy. rewrite FW3. rewrite K4.
+        * apply OLDF. destruct Hy as [Hy|Hy]; auto. right. rewrite E. apply in_app_or in Hy. apply in_or_app.
+          destruct Hy as [Hy|Hy]; [left|right]; unfold chain in Hy; apply filter_In in Hy; apply Hy.
+        * right. lia.
+        * destruct Hy as [Hy|Hy]. subst. right; left; auto. right; right. rewrite E. apply in_app_or in Hy. apply in_or_app.
+          destruct Hy as [Hy|Hy]; [left|right]; unfold chain in Hy; apply filter_In in Hy; apply Hy.
+    - rewrite LVMAX. generalize (sg_level _ _ G). unfold LEVEL_MAX in *. lia.
+    - unfold s'. simpl. rewrite KL, LEN2, LEN1, (sg_length _ _ G), wrap64_succ. f_equal. rewrite E, !app_length. simpl. lia.
+    - unfold s'. simpl. rewrite KI, IT2, IT1. apply (sg_iters _ _ G).
+    - unfold s'. simpl. rewrite KA, AL2, AL1. apply (sg_alive _ _ G). }
+  split. { unfold hsubs. rewrite H1. reflexivity. }
+  split. { intros y Hy. unfold sent. rewrite OLD3 by (apply CLT; auto). auto. }
+  split. { unfold sent. rewrite NEW3. reflexivity. }
+  split. { unfold s'. simpl. rewrite KN, N2, app_length. simpl. unfold new. lia. }
+  split. { unfold hsubs. rewrite OLD3 by auto. auto. }
+  unfold s'. simpl. rewrite KU, US2, US1. auto.
+Qed.
